@@ -245,9 +245,12 @@ class SCRun:
                     cs[sid] = seq
 
     def rec(self, kind, tid, **kw):
+        lp = self.loop
+        if lp.aborting:
+            kw.update(seq=self.seq, it=lp.iterations, t=lp._vnow, kind=kind, tid=tid)
+            return kw
         self.seq += 1
         self.poll()
-        lp = self.loop
         kw["seq"] = self.seq
         kw["it"] = lp.iterations
         kw["t"] = lp._vnow
